@@ -314,12 +314,19 @@ deriving Repr, DecidableEq
 def classic (r : RouteReq) (nh : Bytes) : Bool :=
   r.afi == 1 && classicSafisAnnounce.contains r.safi && nh.length == 4
 
+/-- The next hop has a family this session can carry for the route: IPv4 (or IPv6 when RFC 8950 was
+    negotiated for the family) for an IPv4 route, IPv6 for an IPv6 route. -/
+def nhFamilyOkB (p : SessParams) (r : RouteReq) (nh : Bytes) : Bool :=
+  if r.afi == 2 then nh.length == 16
+  else nh.length == 4 || (nh.length == 16 && p.extnh.contains (r.afi, r.safi))
+
 def encodeExa (p : SessParams) (r : RouteReq) : Out :=
   match resolveNh p r with
   | none => .raised
   | some nh =>
     let attr := attrBytes p r nh
     if defaultPathRaises p r then .raised                       -- struct.error inside pack_attribute
+    else if nhFamilyGuard && !(nhFamilyOkB p r nh) then .nothing -- the announce is left out (when the tree checks it)
     else if p.msgSize < 23 + attr.length then .nothing          -- msg_size < 0
     else if p.msgSize - 23 - attr.length = 0 then .nothing      -- msg_size == 0
     else if classic r nh then
